@@ -1,7 +1,7 @@
 (* C13 — all CLI views of pending work agree; history is append-only.
    Pinned statements only: each theorem is closed by [exact] of a lemma proved in Proofs/.
    Status per statement: (P) proved for all projects; (R) refuted on a concrete witness by computation —
-   (D6 and D7 were repaired in /repo: their former refutations are now the positive theorems below) —
+   (D6, D7, the pattern overwrite and the version reuse were repaired in /repo: their former refutations are now positive theorems) —
    each (R) witness is replayed on the real binary by checks/c13.py (corpus/cli/c13_*.json). *)
 From VV.CLI Require Import Project ProjectP NamingP HistoryP.
 
@@ -9,7 +9,8 @@ From VV.CLI Require Import Project ProjectP NamingP HistoryP.
 Theorem C13_diff_iff_revision : forall P m f env,
   ((exists acts, cmd_diff P = Ok (DiffChanges acts)) <->
    (exists o, cmd_revision P m f env = Ok o /\
-              (o = RevRefused \/ o = RevNeedsTty \/ exists file p, o = RevWrote file p)))
+              (o = RevRefused \/ o = RevNeedsTty \/ o = RevRefusedVersion \/ o = RevRefusedExists
+               \/ exists file p, o = RevWrote file p)))
   /\ (cmd_diff P = Ok DiffNone <-> cmd_revision P m f env = Ok RevNothing)
   /\ (forall e, cmd_diff P = Err e <-> cmd_revision P m f env = Err e)
   /\ (re_tty env = true -> cmd_revision P m f env <> Ok RevNeedsTty).
@@ -18,7 +19,8 @@ Print Assumptions C13_diff_iff_revision.
 Check C13_diff_iff_revision : forall P m f env,
   ((exists acts, cmd_diff P = Ok (DiffChanges acts)) <->
    (exists o, cmd_revision P m f env = Ok o /\
-              (o = RevRefused \/ o = RevNeedsTty \/ exists file p, o = RevWrote file p)))
+              (o = RevRefused \/ o = RevNeedsTty \/ o = RevRefusedVersion \/ o = RevRefusedExists
+               \/ exists file p, o = RevWrote file p)))
   /\ (cmd_diff P = Ok DiffNone <-> cmd_revision P m f env = Ok RevNothing)
   /\ (forall e, cmd_diff P = Err e <-> cmd_revision P m f env = Err e)
   /\ (re_tty env = true -> cmd_revision P m f env <> Ok RevNeedsTty).
@@ -162,44 +164,66 @@ Print Assumptions C13_log_rejects_what_runtime_runs_refuted.
 Check C13_log_rejects_what_runtime_runs_refuted :
   exists P es, macro_blocks P = Ok es /\ List.length es = 2%nat /\ exists f e, cmd_log P = Err (ELoadMigration f e).
 
-(* ------------------------------------------------------------------ (P) append-only history *)
+(* ------------------------------------------------------------------ (P) append-only history (overwrites repaired by fcb5089) *)
+(* for EVERY filename pattern and every stored history: what revision writes is one new file with a version greater
+   than all stored ones, appended to an untouched history *)
 Theorem C13_revision_append_only : forall P m f env file p,
   cmd_revision P m f env = Ok (RevWrote file p) ->
-  p_version p = N.min u32_max (max_version P + 1)
-  /\ ((max_version P < u32_max)%N ->
-        p_version p = (max_version P + 1)%N /\ forall v, In v (versions P) -> (v < p_version p)%N)
-  /\ (~ In file (file_names P) ->
-        pj_migrations (step_revision P m f env) = pj_migrations P ++ [(file, p)])
-  /\ (forall n q, In (n, q) (pj_migrations P) -> n <> file ->
-        In (n, q) (pj_migrations (step_revision P m f env))).
+  p_version p = (max_version P + 1)%N
+  /\ (forall v, In v (versions P) -> (v < p_version p)%N)
+  /\ ~ In file (file_names P)
+  /\ pj_migrations (step_revision P m f env) = pj_migrations P ++ [(file, p)].
 Proof. exact revision_append_only. Qed.
 Print Assumptions C13_revision_append_only.
 Check C13_revision_append_only : forall P m f env file p,
   cmd_revision P m f env = Ok (RevWrote file p) ->
-  p_version p = N.min u32_max (max_version P + 1)
-  /\ ((max_version P < u32_max)%N ->
-        p_version p = (max_version P + 1)%N /\ forall v, In v (versions P) -> (v < p_version p)%N)
-  /\ (~ In file (file_names P) ->
-        pj_migrations (step_revision P m f env) = pj_migrations P ++ [(file, p)])
-  /\ (forall n q, In (n, q) (pj_migrations P) -> n <> file ->
-        In (n, q) (pj_migrations (step_revision P m f env))).
+  p_version p = (max_version P + 1)%N
+  /\ (forall v, In v (versions P) -> (v < p_version p)%N)
+  /\ ~ In file (file_names P)
+  /\ pj_migrations (step_revision P m f env) = pj_migrations P ++ [(file, p)].
 
-(* (R) the u32 corner, stated separately: at version 4294967295 the "new" version is the old one, and with the
-   same comment the old file is overwritten *)
-Theorem C13_revision_saturation_refuted :
-  exists P m f env file p,
-    cmd_revision P m f env = Ok (RevWrote file p)
-    /\ max_version P = u32_max
-    /\ In (p_version p) (versions P)
-    /\ In file (file_names P).
-Proof. exact revision_saturation_refuted. Qed.
-Print Assumptions C13_revision_saturation_refuted.
-Check C13_revision_saturation_refuted :
-  exists P m f env file p,
-    cmd_revision P m f env = Ok (RevWrote file p)
-    /\ max_version P = u32_max
-    /\ In (p_version p) (versions P)
-    /\ In file (file_names P).
+Example C13_revision_append_only_nonvacuous :
+  exists file p, cmd_revision P_nullable "tighten" ["user.email=''"] env0 = Ok (RevWrote file p)
+                 /\ file = "0002_tighten.vespertide.json" /\ p_version p = 2%N.
+Proof. do 2 eexists. split; [vm_compute; reflexivity|]. split; reflexivity. Qed.
+
+(* (P) no run of revision ever removes or changes a stored migration; every outcome but RevWrote leaves the project as it is *)
+Theorem C13_revision_never_overwrites : forall P m f env,
+  (forall n q, In (n, q) (pj_migrations P) -> In (n, q) (pj_migrations (step_revision P m f env)))
+  /\ (forall o, cmd_revision P m f env = Ok o -> (forall file p, o <> RevWrote file p) -> step_revision P m f env = P)
+  /\ (forall e, cmd_revision P m f env = Err e -> step_revision P m f env = P).
+Proof. exact revision_never_overwrites. Qed.
+Print Assumptions C13_revision_never_overwrites.
+Check C13_revision_never_overwrites : forall P m f env,
+  (forall n q, In (n, q) (pj_migrations P) -> In (n, q) (pj_migrations (step_revision P m f env)))
+  /\ (forall o, cmd_revision P m f env = Ok o -> (forall file p, o <> RevWrote file p) -> step_revision P m f env = P)
+  /\ (forall e, cmd_revision P m f env = Err e -> step_revision P m f env = P).
+
+(* (P) the u32 corner, formerly a refutation: at version 4294967295 revision refuses instead of reusing the version *)
+Theorem C13_revision_saturation_refused :
+  max_version P_saturated = u32_max
+  /\ cmd_revision P_saturated "big" [] env0 = Ok RevRefusedVersion
+  /\ cmd_revision P_saturated "other" [] env0 = Ok RevRefusedVersion
+  /\ step_revision P_saturated "big" [] env0 = P_saturated.
+Proof. exact revision_saturation_refused. Qed.
+Print Assumptions C13_revision_saturation_refused.
+Check C13_revision_saturation_refused :
+  max_version P_saturated = u32_max
+  /\ cmd_revision P_saturated "big" [] env0 = Ok RevRefusedVersion
+  /\ cmd_revision P_saturated "other" [] env0 = Ok RevRefusedVersion
+  /\ step_revision P_saturated "big" [] env0 = P_saturated.
+
+(* (P) a pattern without a version placeholder, formerly a refutation: the same comment again is refused, another one is written *)
+Theorem C13_filename_pattern_refused :
+  cmd_revision P_same_name "same" [] env0 = Ok RevRefusedExists
+  /\ step_revision P_same_name "same" [] env0 = P_same_name
+  /\ exists p, cmd_revision P_same_name "other" [] env0 = Ok (RevWrote "other.vespertide.json" p) /\ p_version p = 2%N.
+Proof. exact filename_pattern_refused. Qed.
+Print Assumptions C13_filename_pattern_refused.
+Check C13_filename_pattern_refused :
+  cmd_revision P_same_name "same" [] env0 = Ok RevRefusedExists
+  /\ step_revision P_same_name "same" [] env0 = P_same_name
+  /\ exists p, cmd_revision P_same_name "other" [] env0 = Ok (RevWrote "other.vespertide.json" p) /\ p_version p = 2%N.
 
 (* ------------------------------------------------------------------ (P) file names under the default pattern *)
 Theorem C13_filename_fresh : forall v v' c c' f f',
@@ -216,50 +240,24 @@ Example C13_filename_fresh_nonvacuous :
   /\ migration_filename 12345 None FYml default_pattern = "12345.vespertide.yml".
 Proof. split; vm_compute; reflexivity. Qed.
 
-Theorem C13_revision_never_overwrites : forall P m f env file p,
+(* (P) hence with the default pattern (names given by the tool) the file-exists refusal never fires *)
+Theorem C13_default_pattern_never_refused : forall P m f env,
   cf_pattern (pj_config P) = default_pattern ->
   tool_named P ->
-  (max_version P < u32_max)%N ->
-  cmd_revision P m f env = Ok (RevWrote file p) ->
-  ~ In file (file_names P)
-  /\ pj_migrations (step_revision P m f env) = pj_migrations P ++ [(file, p)].
-Proof. exact revision_never_overwrites. Qed.
-Print Assumptions C13_revision_never_overwrites.
-Check C13_revision_never_overwrites : forall P m f env file p,
+  cmd_revision P m f env <> Ok RevRefusedExists.
+Proof. exact default_pattern_never_refused. Qed.
+Print Assumptions C13_default_pattern_never_refused.
+Check C13_default_pattern_never_refused : forall P m f env,
   cf_pattern (pj_config P) = default_pattern ->
   (forall n q, In (n, q) (pj_migrations P) ->
      exists fmt, n = migration_filename (p_version q) (p_comment q) fmt default_pattern) ->
-  (max_version P < u32_max)%N ->
-  cmd_revision P m f env = Ok (RevWrote file p) ->
-  ~ In file (file_names P)
-  /\ pj_migrations (step_revision P m f env) = pj_migrations P ++ [(file, p)].
+  cmd_revision P m f env <> Ok RevRefusedExists.
 
-Example C13_revision_never_overwrites_nonvacuous :
-  cf_pattern (pj_config P_nullable) = default_pattern
-  /\ tool_named P_nullable
-  /\ (max_version P_nullable < u32_max)%N
-  /\ exists file p, cmd_revision P_nullable "tighten" ["user.email=''"] env0 = Ok (RevWrote file p).
+Example C13_default_pattern_nonvacuous :
+  cf_pattern (pj_config P_nullable) = default_pattern /\ tool_named P_nullable.
 Proof.
-  split; [reflexivity|]. split.
-  - intros n q [H|[]]. inversion H; subst. exists FJson. vm_compute. reflexivity.
-  - split; [vm_compute; reflexivity|]. do 2 eexists. vm_compute. reflexivity.
+  split; [reflexivity|]. intros n q [H|[]]. inversion H; subst. exists FJson. vm_compute. reflexivity.
 Qed.
-
-(* (R) a pattern without a version placeholder: same comment => same file => the first migration is overwritten *)
-Theorem C13_filename_pattern_refuted :
-  exists P m f env file p,
-    cmd_revision P m f env = Ok (RevWrote file p)
-    /\ In file (file_names P)
-    /\ p_version p = 2%N
-    /\ pj_migrations (step_revision P m f env) = [(file, p)].
-Proof. exact filename_pattern_refuted. Qed.
-Print Assumptions C13_filename_pattern_refuted.
-Check C13_filename_pattern_refuted :
-  exists P m f env file p,
-    cmd_revision P m f env = Ok (RevWrote file p)
-    /\ In file (file_names P)
-    /\ p_version p = 2%N
-    /\ pj_migrations (step_revision P m f env) = [(file, p)].
 
 (* ------------------------------------------------------------------ (P) what revision writes can be loaded again (D6 repaired by 446c8b4) *)
 (* unfilled a = the action lacks a required fill_with (AddColumn NOT NULL without default, or NOT NULL change);
